@@ -162,6 +162,7 @@ let () =
           else if String.length v > 8 && String.sub v 0 8 = "PROPFAIL"
                   && not (String.length !verdict > 8 && String.sub !verdict 0 8 = "PROPFAIL") then verdict := v in
         (try
+          if obs = "skip" then raise Exit;   (* a corpus line of the io group: not ours *)
           let fields = List.map kv (List.tl toks) in
           let ofields = List.map kv (String.split_on_char ' ' obs) in
           let get k = try List.assoc k fields with Not_found -> "" in
@@ -238,6 +239,7 @@ let () =
             end
           end
         with
+         | Exit -> ()
          | Unknown_outcome s -> set_v ("DIFF unknown-outcome " ^ (if String.length s > 40 then String.sub s 0 40 else s))
          | Failure m -> set_v ("DIFF driver-failure " ^ m)
          | Not_found -> set_v "DIFF driver-missing-field");
